@@ -412,3 +412,23 @@ def c15_12(ctx, r):
              and (ctx.src(c.func) != "open" or any(isinstance(a, ast.Constant) and isinstance(a.value, str) and set(a.value) & set("wa+") for a in list(c.args[1:]) + [k.value for k in c.keywords]))]
         r.check(not w, f"{m.short} does not write pipeline.json itself", key_of(m, "direct pipeline.json write"), m.loc(w[0]) if w else m.loc(m.node), f"{m.short} writes the pipeline file directly: `{ctx.src(w[0]) if w else ''}`",
                 "stage k+1 is submitted once")
+
+
+@rule(P, "C15.13", "T2", "the internal submit-next-stage command always hands the report to the pipeline manager - whatever the stage's return code", min_obligations=1)
+def c15_13(ctx, r):
+    """A stage that ends with missing jobs reports return code 1.  The pipeline must still record that code and go on (C15.3 decides what the
+    manager does with it).  An early exit of the CLI command for a non-zero code - before PipelineManager.submit_next_stage() - leaves
+    pipeline.json at stage k with no return code, and the completing submitter ignores the command's exit status: the pipeline just stops."""
+    fn = ctx.fn("pipeline.submit_next_stage", "C15.13")
+    cfg = ctx.cfg(fn)
+    calls = [n for s in ctx.sites(fn, short=f"{PM}.submit_next_stage") for n in ctx.nodes_of(fn, s.node)]
+    if not calls:
+        raise AnalysisError("C15.13", "the command no longer calls PipelineManager.submit_next_stage")
+    exits = [n for n in cfg.nodes if n.kind == "stmt" and ((isinstance(n.ast, ast.Expr) and isinstance(n.ast.value, ast.Call) and ctx.src(n.ast.value.func) in ("sys.exit", "exit", "os._exit")) or isinstance(n.ast, ast.Return))]
+    for n in exits:
+        r.check(dominated_by(ctx, fn, n, calls, ALL_KINDS), "the command exits only after the manager was told", key_of(fn, "exit before the pipeline manager is told"), fn.loc(n.ast),
+                f"`{ctx.src(n.ast)}` (under {sorted(('' if p else 'not ') + f for f, p in guard_forms(ctx, fn, n))}) leaves the command before mgr.submit_next_stage(): for those reports the finished stage's return code is never "
+                "recorded, the stage counter never advances and the later stages are never submitted", "stage k+1 is configured and submitted ... per-stage return codes match what happened")
+    for c in calls:
+        forms = guard_forms(ctx, fn, c)
+        r.check(not forms, "the hand-over is unconditional", key_of(fn, "conditional hand-over"), fn.loc(c.stmt), f"mgr.submit_next_stage() is called only under {sorted(f for f, p in forms)}", "stage k+1 is configured and submitted")
